@@ -853,4 +853,14 @@ theorem consumeBytes_spec (w : World) (fuel : Nat) : ∀ (v : Iov) (count consum
           refine ⟨_, rfl, ?_⟩
           exact trim_consumed w v s rest (count - consumed) hinv hs (by omega) hlt hnb1
 
+theorem optimize_take (v v' : Iov) (h : v.optimize = some v') (j : Nat) (hj : j + 2 ≤ v.slices.length) :
+    v'.slices.take j = v.slices.take j := by
+  rcases optimize_cases v v' h with rfl | ⟨pre, l, r, anc, a, ca, hsl, _, _, _, _, _, _, rfl⟩
+  · rfl
+  · rw [hsl] at hj ⊢
+    simp only [List.length_append, List.length_cons, List.length_nil] at hj
+    have hj' : j ≤ pre.length := by omega
+    simp only
+    rw [List.take_append_of_le_length hj', List.take_append_of_le_length hj']
+
 end Woodpile.Iovec
